@@ -240,6 +240,7 @@ def run_threads(ns, ctx, spec):
     B = ns.bec2file
     rng = ctx.rng
     codes = yieldrun.code_objects_of(ns.plugin.PrivateEccKeyProxy, ns.plugin.PublicEccKeyProxy, B.EccEncryptor, B.EccDecryptor, B.InitEccAuthBlock)
+    codes += [c_ for c_ in yieldrun.code_objects_of_module(ns.bec2file, ns.crypto, ns.plugin) if c_ not in codes]  # module-level helpers and every class of these modules
     total = 0
     for rnd in range(spec["rounds"]):
         nthreads = (2, 3)[rnd % 2]
